@@ -126,6 +126,9 @@ def run(ctx):
             ctx.ob('TYPESTATE', 'NotInBlock/eof-only-when-empty', ok, short_loc(nx.span), 'Ok(None) between blocks only when fill_buf() returned an empty buffer: %s' % ok)
 
     endblock(ctx, nx, repl)
+    # "block fully consumed" itself: left-after-take errs unless nothing is left, for both input kinds (shared with C11)
+    from .c11 import take_rule
+    take_rule(ctx)
     checked(ctx, nx)
     erronce(ctx)
     loops(ctx, nx)
